@@ -492,6 +492,9 @@ func C04() int {
 		}
 		if pv.Symptom != "" {
 			pv = confirm(it.prog, ProgOpts{}, pv)
+			if pv.Symptom == "" {
+				return // a sandbox kill that did not repeat (counted in common.go)
+			}
 			sym := pv.Symptom
 			if sym == "stdout-diff" {
 				sym = c04Classify(pv.Want.Stdout, pv.Got.Stdout)
@@ -512,7 +515,7 @@ func C04() int {
 	r.Set("exhaustive", !capped)
 	r.Set("rule", "table of statement kinds x operand slots: every non-empty subset of a statement's operand slots is wrapped in tracer calls (print id, bump global counter) and the statement is placed in each context (top level, function body, loop body, if branch, else-if branch, case body); quick = all single slots in all contexts + all subsets at top level and in a function, thorough = all subsets in all contexts. Oracle = the reference interpreter's effect trace (left-to-right, exactly once, all chain conditions/case expressions before any body, loop condition once per iteration after the post statement). Switch tags and range operands never carry a tracer (unspecified). Distinct by source text.")
 	r.Assumef("tracers have no effect other than printing and counting, so Go's unspecified order between variable reads and calls is never observable")
-	return r.Finish()
+	return finish(r)
 }
 
 // c04Classify separates order from multiplicity symptoms by looking at the trace lines only.
